@@ -2,7 +2,7 @@
    implementation before a call (token list of the store with ids, items, placeholder, separators),
    the call with its donors, and what the implementation did (exception class, token list after,
    items after as positions, donor stores after a refusal, popped tokens). *)
-From AB Require Import Prelude PySeq Repeated Fields.
+From AB Require Import Prelude PySeq Repeated Fields RepeatedLib RepeatedProofs RepeatedLayout.
 
 Inductive rop :=
 | OSetInt (i : Z) | OSetSlice (s : slc) | ODel (ix : pyidx) | OInsert (i : Z) | OAppend | OExtend
@@ -88,3 +88,12 @@ Definition check_case (c : case) : bool :=
       res_matches r (c_exn c) && state_matches c (s_doc s') (s_items s') && donors_match r dl (c_donors' c)
       && match r with Ok ts => list_eqb Z.eqb (ids ts) (c_popped c) | Err _ => true end
   end.
+
+(* the hypothesis of the C03 / C19 theorems, evaluated on the implementation state of every case that
+   edits a repeated field (RepeatedLayout.layout_b_sound : layout_b = true -> Layout) *)
+Definition layout_case (c : case) : bool :=
+  match c_op c with
+  | FOpt _ _ _ _ | FReq _ => true
+  | _ => layout_b (c_ph c) (c_doc c) (c_items c)
+  end.
+Definition check_both (c : case) : bool := check_case c && layout_case c.
